@@ -60,7 +60,7 @@ func (r *DescribeConfigsRequest) decode(pd packetDecoder, version int16) (err er
 		}
 		r.Resources[i].Name = name
 
-		confLength, err := pd.getArrayLength()
+		confLength, err := pd.getNullableArrayLength()
 		if err != nil {
 			return err
 		}
